@@ -55,7 +55,7 @@ pub fn run(rep: &mut Report, tier: &str, seed: u64) {
     let pool = pool();
     for pi in 0..n_programs {
         let mut r = root.fork(pi as u64);
-        let opts = Opts { fragment: false, fault_pct: if pi % 3 == 2 { 100 } else { 0 }, max_stanzas: 6, allow_print: true, universal: r.chance(1, 2) };
+        let opts = Opts { fragment: false, fault_pct: if pi % 3 == 2 { 100 } else { 0 }, max_stanzas: 6, allow_print: true, universal: r.chance(1, 2), probe: false, scoped_heavy: false };
         let loaded = match gen_loaded(rep, &mut r, &pool, &opts) {
             Some(l) => l,
             None => continue,
@@ -66,7 +66,8 @@ pub fn run(rep: &mut Report, tier: &str, seed: u64) {
             drv.ask(&sexp::tagged("set-tree", vec![info.to_sexp(&source.src)]));
             rep.count_n("regex-oracle-questions", table.rx_asked + table.rp_asked);
             table = OracleTable::new();
-            let cfg = RunCfg { lazy: false, globals: supply_globals(&mut r, &loaded.program), debug: None, cancel_at: None };
+            table.arm_sets = crate::astx::scan_arm_sets(&loaded.file);
+            let cfg = RunCfg { lazy: false, globals: supply_globals(&mut r, &loaded.program), outer_globals: vec![], debug: None, cancel_at: None };
             let ir = run_impl(&loaded.file, &source.tree, &source.src, &info, &cfg);
             let model = run_model(&mut drv, &mut table, &mi, &cfg);
             let key = format!("{}\u{0}{}", loaded.program.text, source.src);
